@@ -15,6 +15,7 @@ mod c14;
 mod c15;
 mod c16;
 mod c17;
+mod c19;
 mod c20;
 mod common;
 mod probe;
@@ -23,8 +24,11 @@ mod structspace;
 mod wgpucheck;
 
 fn main() {
-    common::install_quiet_panic_hook();
     let args: Vec<String> = std::env::args().collect();
+    if args.first().map(|a| a.ends_with("rustfmt")).unwrap_or(false) {
+        c19::stub_main();
+    }
+    common::install_quiet_panic_hook();
     if args.len() < 3 {
         eprintln!("usage: explore <property-id> quick|thorough | explore replay <file>");
         std::process::exit(2);
@@ -68,6 +72,8 @@ fn main() {
         "C15" => c15::run(tier),
         "C16" => c16::run(tier),
         "C17" => c17::run(tier),
+        "C19" => c19::run(tier),
+        "c19-child" => c19::child_main(tier.parse().unwrap(), &args[3], args.get(4).map(|s| s.as_str())),
         "C20" => c20::run(tier),
         "c20-child" => c20::child(tier, args[3].parse().unwrap()),
         other => {
